@@ -247,6 +247,8 @@ func UseSites() []UseSite {
 			Refs: []UseRef{{Kind: UKFunc}, {Kind: UKMethod, Tag: "Reset"}}},
 		{Tag: "nested receiver map[Mock2]S{}[Mock2{}].Reset()", Stmt: "map[{q}Mock2]{q}S{}[{q}Mock2{}].Reset()", Kind: UKType, Type: "Mock2", TONL: true,
 			Refs: []UseRef{{Kind: UKType, Type: "Mock2"}, {Kind: UKMethod, Tag: "Reset"}}},
+		{Tag: "nested chain s.Chain().Reset() two methods", Stmt: "s.Chain().Reset()", Kind: UKMethod, TONL: true, Core: true,
+			Refs: []UseRef{{Kind: UKMethod, Tag: "Reset"}, {Kind: UKMethod, Tag: "Reset"}}},
 		// a local variable with the NAME of the import whose method IS annotated (after a qualified call in the same file)
 		{Tag: "shadow import name d := S{}; d.Reset()", Stmt: "func() { d := {q}S{}; d.Reset() }()", Kind: UKMethod, TONL: true, Core: true},
 		// the importing package's own, unannotated items that share the names of d's annotated ones
@@ -432,6 +434,12 @@ func (m UseMix) ann(w *lineWriter, indent string, item int) {
 
 func usePreludeD(w *lineWriter, m UseMix) {
 	chunk := func(f func()) func() { return f }
+	// a grouped import: ONE declaration holding two import specs, in front of the annotated declarations
+	w.add("import (")
+	w.add("\t\"unsafe\"")
+	w.add("\t_ \"unsafe\"")
+	w.add(")")
+	w.add("")
 	tMock := chunk(func() {
 		// Mock lives in a type group and is followed by a sibling WITHOUT a doc comment of its own
 		w.add("type (")
@@ -515,6 +523,11 @@ func usePreludeD(w *lineWriter, m UseMix) {
 		m.ann(w, "", ItReset)
 		w.add("func (s S) Reset() {}")
 		w.add("")
+		w.add("// Chain returns its receiver and carries the same annotations: s.Chain().Reset() holds two restricted methods")
+		w.add("// in one expression that starts at one position.")
+		m.ann(w, "", ItReset)
+		w.add("func (s S) Chain() S { return s }")
+		w.add("")
 		w.add("// Reset of S3 is annotated whenever S's is, but with an allow-list of its OWN (S3AllowList): two restricted")
 		w.add("// items of one name in one package whose verdicts differ for the same using package.")
 		if m.Skip&ItReset == 0 {
@@ -556,6 +569,8 @@ func usePreludeD(w *lineWriter, m UseMix) {
 	for _, f := range order {
 		f()
 	}
+	w.add("var _ unsafe.Pointer")
+	w.add("")
 }
 
 // trailOf is the trailing comment of a one-line declaration (" // @ignore ..."), if any.
@@ -624,6 +639,11 @@ func RenderUse(s *UseSpec) *UseRendered {
 		if i == 3 {
 			continue // the import-free file
 		}
+		factless := !inD && (s.Mix.Allow%2 == 1 || s.Mix.AnnOrder == 1)
+		if factless {
+			// an import for which no driver holds a fact, ahead of the annotated package in import order
+			w.add(`import "unsafe"`)
+		}
 		if !inD {
 			if s.Spell == SpRenamedImp {
 				w.add(`import dd "ex.com/m/d"`)
@@ -638,6 +658,9 @@ func RenderUse(s *UseSpec) *UseRendered {
 			w.add(`import "ex.com/m/e"`)
 			w.add("")
 			w.add("var _ = e.Helper")
+			if factless {
+				w.add("var _ unsafe.Pointer")
+			}
 			w.add("var _ = " + q + "PlainF")
 			if s.Spell == SpThirdAlias {
 				w.add("var _ = c.Keep")
